@@ -68,6 +68,12 @@ func (s *State) clone() *State {
 	return n
 }
 
+// NonNegFields lists integer struct fields that hold a non-negative value
+// whenever they are read: every assignment to them in the module stores a
+// length, a non-negative constant or a saved copy of the field itself (the
+// rules package computes the set and reports it as the invariant NN1).
+var NonNegFields map[*types.Var]bool
+
 func (s *State) addTerm(t string, ti *termInfo) {
 	if t == zeroTerm || t == "" {
 		return
@@ -76,6 +82,11 @@ func (s *State) addTerm(t string, ti *termInfo) {
 		s.terms[t] = ti
 		if strings.HasPrefix(t, "len(") {
 			s.le(zeroTerm, t, 0)
+		}
+		if ti != nil && len(ti.deps) > 0 && !ti.hasIndex && !strings.ContainsAny(t, "(+-*/ ") {
+			if f := ti.deps[len(ti.deps)-1]; NonNegFields[f] && f.IsField() && strings.HasSuffix(t, "."+f.Name()) {
+				s.le(zeroTerm, t, 0)
+			}
 		}
 	}
 }
